@@ -108,7 +108,8 @@ def gen_lines(rng, n):
             line = m + sep1 + rng.choice(paths) + sep2 + v
         elif k == 1:  # Spartan and near misses
             host = rng.choice(["example.com", "h", "", "hôst", "h\t"])
-            ln = rng.choice(["0", "12", "007", "", "x", "1 ", "٣", "-1", "1.0", "12\t"])
+            ln = rng.choice(["0", "12", "007", "", "x", "1 ", "٣", "-1", "1.0", "12\t", "+5", "-0", "+0", "1_000", "0_0", "\t7", "\x0c7",
+                             "1e3", "٣٤", "１２", "0x10", "0b1", "00", "9" * 5000, "1" + "0" * 4300, "²", "①"])
             line = host + rng.choice([" ", "  "]) + rng.choice(paths) + " " + ln
         elif k == 2:  # Gemini
             line = rng.choice(["gemini://h/p", "GEMINI://h/", " gemini://h/", "gemini:/h", "gemini://", "gemini://h/a b HTTP/1.0",
@@ -193,6 +194,13 @@ def run(tier):
         data = (line + "".join(hdrs)).encode("utf-8", "surrogateescape")
         cases.append({"line": line, "hdrs": hdrs, "tls": tls, "plist": plist, "waptop": waptop,
                       "data": gen.lat(data)})
+    # the same connection again later in the same process, and twice in a row: the answer is a function of
+    # (line, headers, TLS, configured list), not of what the process has classified before
+    again = [dict(c) for c in cases if "/wap" in c["line"] or "HTTP/" in c["line"]][:250] + [dict(c) for c in rng.sample(cases, 250)]
+    doubled = []
+    for c in again:
+        doubled += [c, dict(c)]
+    cases = cases + doubled
     res = impl_run([{"op": "detect", "cases": [{"data": c["data"], "tls": c["tls"],
                                                  "protocols": "[" + ", ".join(c["plist"]) + "]",
                                                  "waptop": c["waptop"]} for c in cases]}])[0]
